@@ -54,6 +54,23 @@ def run(prop, tier, seed, ctx):
                           json.dumps({k: v for k, v in m["observed"].items() if k in m["fields"] or k == "wrong_lines"}, default=repr)[:300],
                           json.dumps({k: v for k, v in m["expected"].items() if k in m["fields"]}, default=repr)[:200],
                           " error=" + m["error"] if m["error"] else ""), m)
+    # ---- verify() inside sections of files with unusual line ends (old-Mac \r inside a section, Windows \r\n, form feeds
+    # ...): the syntax feedback's line AND the line of the traceback frame it shows are whole-file lines.  The offers are
+    # the ones C12 uses (bind/verify.section_chunk), judged here for C17's two line clauses by TraceVerify.
+    from bind.verify import PROLOGUES, SECTION_BODIES
+    sect = shard_map("bind.verify", "section_chunk", [(p, b, k) for p in range(len(PROLOGUES)) for b in range(len(SECTION_BODIES)) for k in (1, 2)], chunk=10)
+    if len(sect) < 40:
+        raise MachineryError("only %d sectioned verify offers were produced" % len(sect))
+    acc, rej, tres = tlc.validate_traces("TraceVerify", "TraceVerify.cfg", [[{k: v for k, v in e.items() if k not in ("error", "environment_mismatch", "sectioned")} for e in t["events"]] for t in sect], timeout=600)
+    ctx.add_tlc(tres, "line clauses of CallOk on %d verify() calls inside sections" % len(sect))
+    ctx.cov["traces_validated_against_impl"] += len(sect)
+    for tid, pos, mask in rej:
+        t = sect[tid - 1]
+        ev = t["events"][pos - 1]
+        for bit, name in ((4, "LineIs"), (32, "TracebackLineIs")):
+            if int(mask) & bit:
+                ctx.violation("C17|verify-in-section|%s" % name, "verify() inside a section of %r: the parser says line %s (+ offset %d), the feedback says %s, its traceback frame %s" % (
+                    t["texts"][0][:80], ev["line"], ev["offset"], ev["fbline"], ev.get("tbline")), {"texts": t["texts"], "events": t["events"]})
     for mcfg, inv in MUTANTS:
         mres = tlc.run("Sections", mcfg, workers=4, timeout=300)
         if inv not in mres.violated:
